@@ -4,4 +4,4 @@ From Stable Require Import StableSpec StableModel StableHeap.
 Extraction Language OCaml.
 Extraction "model.ml" anchor init step observe ss_init check_step next_sstate check_trace
   elems sel other order inorder
-  linit lstep lobserve lelems items free_walk hget lsel.
+  linit lstep lobserve lelems items free_walk hget lsel heap_kind is_hashk.
